@@ -75,9 +75,67 @@ func CustomByName(name string) fiber.CustomConstraint {
 // Observation: "panic" (registration panicked), "ran=0;st=<status>", or
 // "ran=1;st=<status>;path=<hex>;rpath=<hex>;names=<hexlist>;vals=<hexlist>".
 func Serve(cfg Cfg, use bool, pattern, path string, customs []string) (obs string) {
+	return ServeKeys(cfg, use, pattern, path, customs, false)
+}
+
+// asciiUpper / asciiLower: byte-wise ASCII case mapping (the Lean model's toUpper / toLower).
+func asciiUpper(s string) string {
+	b := []byte(s)
+	for i := range b {
+		if b[i] >= 'a' && b[i] <= 'z' {
+			b[i] -= 32
+		}
+	}
+	return string(b)
+}
+
+func asciiLower(s string) string {
+	b := []byte(s)
+	for i := range b {
+		if b[i] >= 'A' && b[i] <= 'Z' {
+			b[i] += 32
+		}
+	}
+	return string(b)
+}
+
+// ExtraKeys: keys other than the declared names the handler also asks Params for — the bare
+// wildcard keys (Params rewrites them to "*1" / "+1") and the first declared name in upper and in
+// lower case (the case rule of the lookup).
+func ExtraKeys(names []string) []string {
+	keys := []string{"*", "+"}
+	if len(names) > 0 {
+		keys = append(keys, asciiUpper(names[0]), asciiLower(names[0]))
+	}
+	return keys
+}
+
+// ServeKeys is Serve; with extra it appends ";xk=<hexlist>": Params(k) for k in ExtraKeys(names).
+func ServeKeys(cfg Cfg, use bool, pattern, path string, customs []string, extra bool) (obs string) {
+	mode := 0
+	if use {
+		mode = 1
+	}
+	return ServeMode(cfg, mode, pattern, path, customs, extra)
+}
+
+// MountPrefix is where mode 2 mounts the sub-app that holds the route.
+const MountPrefix = "/m"
+
+// ServeMode: mode 0 = app.Get(pattern), 1 = app.Use(pattern), 2 = the route is a GET route of a
+// sub-app mounted under MountPrefix (the parent splices it in through addPrefixToRoute at startup).
+func ServeMode(cfg Cfg, mode int, pattern, path string, customs []string, extra bool) (obs string) {
+	use := mode == 1
 	app := fiber.New(cfg.Fiber())
+	var sub *fiber.App
+	if mode == 2 {
+		sub = fiber.New(cfg.Fiber())
+	}
 	for _, n := range customs {
 		app.RegisterCustomConstraint(CustomByName(n))
+		if sub != nil {
+			sub.RegisterCustomConstraint(CustomByName(n))
+		}
 	}
 	var got string
 	ran := 0
@@ -90,6 +148,14 @@ func Serve(cfg Cfg, use bool, pattern, path string, customs []string) (obs strin
 		}
 		got = ";path=" + gen.Hex(c.Path()) + ";rpath=" + gen.Hex(c.Route().Path) +
 			";names=" + gen.HexList(names) + ";vals=" + gen.HexList(vals)
+		if extra {
+			keys := ExtraKeys(names)
+			xv := make([]string, len(keys))
+			for i, k := range keys {
+				xv[i] = c.Params(k)
+			}
+			got += ";xk=" + gen.HexList(xv)
+		}
 		return c.SendStatus(200)
 	}
 	registered := func() (ok bool) {
@@ -98,9 +164,13 @@ func Serve(cfg Cfg, use bool, pattern, path string, customs []string) (obs strin
 				ok = false
 			}
 		}()
-		if use {
+		switch {
+		case sub != nil:
+			sub.Get(pattern, h)
+			app.Use(MountPrefix, sub)
+		case use:
 			app.Use(pattern, h)
-		} else {
+		default:
 			app.Get(pattern, h)
 		}
 		return true
@@ -108,7 +178,19 @@ func Serve(cfg Cfg, use bool, pattern, path string, customs []string) (obs strin
 	if !registered {
 		return "panic"
 	}
-	handler := app.Handler()
+	var handler fasthttp.RequestHandler
+	started := func() (ok bool) { // a mounted route is parsed again at startup
+		defer func() {
+			if r := recover(); r != nil {
+				ok = false
+			}
+		}()
+		handler = app.Handler()
+		return true
+	}()
+	if !started {
+		return "panic"
+	}
 	var fctx fasthttp.RequestCtx
 	var req fasthttp.Request
 	req.Header.SetMethod("GET")
